@@ -69,10 +69,16 @@ func runSolver(ctx context.Context, s solverSpec, file string, timeout time.Dura
 	_ = cmd.Run()
 	secs = time.Since(t0).Seconds()
 	out = buf.String()
-	first := strings.TrimSpace(strings.SplitN(out, "\n", 2)[0])
-	switch first {
-	case "unsat", "sat":
-		return first, out, secs
+	for _, l := range strings.Split(out, "\n") {
+		l = strings.TrimSpace(l)
+		if l == "" || strings.HasPrefix(l, "WARNING") || strings.HasPrefix(l, "(warning") {
+			continue
+		}
+		switch l {
+		case "unsat", "sat":
+			return l, out, secs
+		}
+		break
 	}
 	return "unknown", out, secs
 }
